@@ -14,6 +14,8 @@ from pest.grammar import Choice
 from pest.grammar import Repeat
 from pest.grammar import Rule
 from pest.grammar.expressions import OptimizedChoiceRepeat
+from pest.grammar.rule import ATOMIC
+from pest.grammar.rule import COMPOUND
 from pest.grammar.rule import SILENT
 from pest.grammar.rule import SILENT_ATOMIC
 
@@ -50,6 +52,9 @@ class OptimizerStep:
         predicate: If not `None`, the predicate is called with the rules to
             be optimized as its only argument. The step will be skipped if the
             predicate returns `False`.
+        atomic_only: If `True`, the pass is only applied where no implicit
+            whitespace or comments can be matched: to atomic rules, or to all
+            rules if the grammar defines neither `WHITESPACE` nor `COMMENT`.
 
     """
 
@@ -58,11 +63,12 @@ class OptimizerStep:
     direction: PassDirection
     fixed_point: bool = False
     predicate: OptimizerPassPredicate | None = None
+    atomic_only: bool = False
 
 
 DEFAULT_OPTIMIZER_PASSES = [
     OptimizerStep("unroll", unroll, PassDirection.POSTORDER),
-    OptimizerStep("skip", skip, PassDirection.PREORDER),
+    OptimizerStep("skip", skip, PassDirection.PREORDER, atomic_only=True),
     OptimizerStep("inline built-in", inline_builtin, PassDirection.PREORDER),
     OptimizerStep("squash_choice", squash_choice, PassDirection.POSTORDER),
     OptimizerStep("inline silent", inline_silent_rules, PassDirection.POSTORDER),
@@ -95,7 +101,9 @@ class Optimizer:
                 continue
 
             for name, rule in rules.items():
-                # TODO: some passes should only be applied to atomic rules
+                if step.atomic_only and not self._is_atomic(rule, rules):
+                    continue
+
                 expr = rule.expression
 
                 if step.fixed_point:
@@ -105,6 +113,15 @@ class Optimizer:
                 rules[name].expression = expr
 
         return rules
+
+    def _is_atomic(self, rule: Rule, rules: Mapping[str, Rule]) -> bool:
+        """True if no implicit trivia can be matched inside `rule`'s expression."""
+        if not any(name in rules for name in ("WHITESPACE", "COMMENT", "SKIP")):
+            return True
+        return bool(rule.modifier & (ATOMIC | COMPOUND)) or rule.name in (
+            "WHITESPACE",
+            "COMMENT",
+        )
 
     def _optimize_skip_rule(self, rules: MutableMapping[str, Rule]) -> None:
         """Combine WHITESPACE and COMMENT into a single SKIP rule."""
